@@ -331,6 +331,41 @@ theorem parse_api_key_returns_key {w0 w1 w2 w3 w4 w5 w6 w7 : Str} (q : Char) {k 
     parseAPIKeyM (stdKeygen w0 w1 w2 q w3 w4 w5 k w6 w7 tail) = .ok k :=
   parseAPIKeyM_stdKeygen q tail h0 h1 h2 h3 h4 h5 h6 h7 hq hk
 
+/-! ## every spelling of the key element (F-C17e) -/
+
+/-- `.login`, keygen response: for every spelling of the tags that the matcher takes for an opening tag of
+`key` (`OpenForm`: e.g. `<key>`, `<key ATTRIBUTES>`, `<x:key>`) and a closing tag (`CloseForm`: `</key>`,
+`</key >`, `</x:key>`), whatever surrounds the element, the logged response is the same for all keys. -/
+theorem mask_body_spellings_independent {o cl : Str} (ho : OpenForm o) (hc : CloseForm cl) (pre post k1 k2 : Str) :
+    doLog (maskKey (pre ++ (o ++ (k1 ++ (cl ++ post))))) = doLog (maskKey (pre ++ (o ++ (k2 ++ (cl ++ post))))) := by
+  rw [maskKey_forms_independent ho hc k1 k2 pre post]
+
+/-- … in particular with any attributes (no `>` in them) and a blank in the closing tag, or a namespace
+prefix (not vacuous: the forms exist). -/
+theorem mask_body_attributes_independent (a : Str) (ha : '>' ∉ a) (pre post k1 k2 : Str) :
+    doLog (maskKey (pre ++ ('<' :: 'k' :: 'e' :: 'y' :: ' ' :: (a ++ ['>']) ++ (k1 ++ ("</key >".toList ++ post))))) =
+      doLog (maskKey (pre ++ ('<' :: 'k' :: 'e' :: 'y' :: ' ' :: (a ++ ['>']) ++ (k2 ++ ("</key >".toList ++ post))))) :=
+  mask_body_spellings_independent (openForm_attrs a ha) closeForm_blank pre post k1 k2
+
+example (pre post k1 k2 : Str) :
+    doLog (maskKey (pre ++ ("<x:key>".toList ++ (k1 ++ ("</x:key>".toList ++ post))))) =
+      doLog (maskKey (pre ++ ("<x:key>".toList ++ (k2 ++ ("</x:key>".toList ++ post))))) :=
+  mask_body_spellings_independent openForm_ns closeForm_ns pre post k1 k2
+
+/-- **F-C17e (fixed, 2766620)**: with the regexp `(?s)<key>.*</key>` a keygen answer that spells the element
+with an attribute was accepted by the parser — key `Secret12` — and logged to `.login` as it came; the
+regexp of the fix masks it. -/
+theorem key_element_spelling_counterexample_before_fix :
+    let body := "<response status='success'><result><key a='1'>Secret12</key></result></response>".toList
+    parseAPIKeyM body = .ok "Secret12".toList ∧ maskKeyLit body = body ∧
+      maskKey body = "<response status='success'><result><key>xxx</key></result></response>".toList := by decide
+
+/-- … and a truncated answer (connection lost inside the key element: no closing tag) was logged
+unmasked; now everything behind the opening tag is masked. -/
+theorem truncated_key_counterexample_before_fix :
+    maskKeyLit "<result><key>Secret12Secret".toList = "<result><key>Secret12Secret".toList ∧
+      maskKey "<result><key>Secret12Secret".toList = "<result><key>xxx</key>".toList := by decide
+
 /-- Whole PAN-OS runs in which the key used for the later requests is the one the modelled parser
 extracts from the keygen answer: all sinks equal, outside the F-C17 path. -/
 theorem sinks_independent_parsed_partial (addr user p1 p2 name ip : Str)
@@ -406,6 +441,8 @@ def obligations : List Lean.Name := [
   ``mask_error_independent, ``keygen_independent, ``keygen_truncated_independent,
   ``keygen_status_log_independent, ``ha_check_transport_error_independent,   ``prefix_get_error_independent_partial, ``transport_error_reveals_key,
   ``api_key_amp_counterexample_before_fix, ``key_newline_counterexample_before_fix,
+  ``mask_body_spellings_independent, ``mask_body_attributes_independent, ``key_element_spelling_counterexample_before_fix,
+  ``truncated_key_counterexample_before_fix,
   ``nsx_login_log_independent, ``nsx_sinks_independent,
   ``ssh_log_is_device_output_only, ``ssh_sinks_independent, ``ssh_login_log_is_expected_output,
   ``ssh_program_independent, ``ssh_session_independent, ``password_sent_only_at_password_prompt,
